@@ -9,6 +9,7 @@ package props
 import (
 	"bytes"
 	"encoding/json"
+	"errors"
 	"fmt"
 	"os"
 	"strings"
@@ -201,6 +202,50 @@ func c05Run(c *mon.Ctx, cs *c05Case, base string) {
 	}
 	c.Sample("created", 3, wit())
 	c05Pipeline(c, cs, mv, cf, buf.Bytes(), base)
+	if cs.family == "honest" && buf.Len() > 0 && buf.Len() < 1<<20 {
+		c05FailingWriter(c, cs, mv, buf.Len())
+	}
+}
+
+// c05CutWriter accepts limit bytes and then fails every write.
+type c05CutWriter struct {
+	limit, got int
+}
+
+func (w *c05CutWriter) Write(p []byte) (int, error) {
+	if w.got+len(p) > w.limit {
+		n := w.limit - w.got
+		w.got = w.limit
+		return n, errors.New("injected write fault: device full")
+	}
+	w.got += len(p)
+	return len(p), nil
+}
+
+// c05FailingWriter: the same creation into a writer that fails at a point derived from the case id.
+// The bytes the writer took are then a cut-off archive, which cannot pass the zip check, so a
+// creation that reports success there is not one ("whenever creating ... succeeds, the archive passes").
+func c05FailingWriter(c *mon.Ctx, cs *c05Case, mv module.Version, size int) {
+	h := 0
+	for _, ch := range cs.id {
+		h = h*31 + int(ch)
+	}
+	if h < 0 {
+		h = -h
+	}
+	cuts := []int{0, 1, size / 2, size - 1, h % size}
+	cut := cuts[h%len(cuts)]
+	w := &c05CutWriter{limit: cut}
+	var err error
+	if c.Guard(cs.id, func() any { return c05Witness(cs) }, func() { err = mzip.Create(w, mv, zipcFiles(cs.files)) }) {
+		return
+	}
+	c.Eval(1)
+	if err == nil {
+		c.Violation("create-reports-success-though-the-writer-failed", cs.id, map[string]any{"case": c05Witness(cs), "archive-size": size, "writer-failed-after": cut})
+		return
+	}
+	c.Class("failing-writer:create-fails")
 }
 
 // c05Pipeline feeds a created archive back through the own reader, CheckZip and Unzip.
